@@ -1,5 +1,458 @@
-/- Line-protocol handler for C11 (stub until the model exists). -/
-import NoulithModel.Common
+/- Line-protocol handler for C11.
+
+Request:  `<observation tokens> @ <stream expression tokens>` (prefix notation, space separated)
+
+  observation:  len | list | pairs | rev | last | first | truthy | idx <i|bad> | slice <lo|_|bad> <hi|_|bad>
+              | in <val> | unpack <k> | unpackSplat <before> <after> | takeWhile <pred>
+  stream expr:  til a b | tilby a b c | to a b | toby a b c | iota a | perms <list> | combs <list> k
+              | subseqs <list> | cpow <list> k | wrap <list> | repeat <val> | cycle <list>
+              | iterate <fn> <val> | map <fn> E | filter <pred> E | zip <fn2> <n> E1 … En
+              | dropS n E | revS E | dropWhile <pred> E
+  values:       decimal integers and bracketed lists without spaces, e.g. `[1,[2,3],-4]`
+
+Response: `<impl result>\t<spec result>\t<finite|infinite>` -/
+import NoulithModel.Spec.StreamSpec
+
 namespace Noulith.DriverC11
-def handle (_args : List String) : String := "bad-op"
+open Noulith Noulith.Stream Noulith.StreamSpec
+
+/-! ### parsing values -/
+def parseIntChars (cs : List Char) : Option (Int × List Char) :=
+  let (neg, cs) := match cs with
+    | '-' :: r => (true, r)
+    | r => (false, r)
+  let ds := cs.takeWhile Char.isDigit
+  let rest := cs.dropWhile Char.isDigit
+  if ds.isEmpty then none
+  else
+    let n : Nat := ds.foldl (fun acc c => acc * 10 + (c.toNat - '0'.toNat)) 0
+    some (if neg then -(n : Int) else (n : Int), rest)
+
+mutual
+def parseValChars : Nat → List Char → Option (Val × List Char)
+  | 0, _ => none
+  | _ + 1, '[' :: ']' :: rest => some (.nil, rest)
+  | fuel + 1, '[' :: rest =>
+    match parseElems fuel rest with
+    | some (xs, rest') => some (Val.ofList xs, rest')
+    | none => none
+  | _ + 1, cs => (parseIntChars cs).map fun (n, r) => (.int n, r)
+def parseElems : Nat → List Char → Option (List Val × List Char)
+  | 0, _ => none
+  | fuel + 1, cs =>
+    match parseValChars fuel cs with
+    | some (v, ',' :: rest) =>
+      (parseElems fuel rest).map fun (vs, r) => (v :: vs, r)
+    | some (v, ']' :: rest) => some ([v], rest)
+    | _ => none
+end
+
+def parseVal (s : String) : Option Val :=
+  match parseValChars (s.length + 2) s.toList with
+  | some (v, []) => some v
+  | _ => none
+
+def parseList (s : String) : Option (List Val) := (parseVal s).bind fun v =>
+  if v.isList then some v.elems else none
+
+/-! ### the function pools shared with the harness -/
+def vInt : Val → Int
+  | .int n => n
+  | _ => 0
+def b2v (b : Bool) : Val := .int (if b then 1 else 0)
+
+def splitArg (s : String) : String × Int :=
+  match s.splitOn ":" with
+  | [f, c] => (f, c.toInt?.getD 0)
+  | _ => (s, 0)
+
+/-- `add:c` x+c | `mul:c` x*c | `sq` x*x | `neg` | `pair` [x,x] | `lenf` len(x) | `const:c` -/
+def applyFn (f : String) (x : Val) : Val :=
+  match splitArg f with
+  | ("add", c) => .int (vInt x + c)
+  | ("mul", c) => .int (vInt x * c)
+  | ("sq", _) => .int (vInt x * vInt x)
+  | ("neg", _) => .int (-(vInt x))
+  | ("pair", _) => Val.ofList [x, x]
+  | ("lenf", _) => .int x.elems.length
+  | ("const", c) => .int c
+  | _ => x
+
+/-- `lt:c` | `gt:c` | `ne:c` | `even` | `tt` | `ff` | `lenlt:c` | `evenlen` -/
+def applyPred (p : String) (x : Val) : Bool :=
+  match splitArg p with
+  | ("lt", c) => vInt x < c
+  | ("gt", c) => vInt x > c
+  | ("ne", c) => vInt x ≠ c
+  | ("even", _) => vInt x % 2 = 0
+  | ("tt", _) => true
+  | ("ff", _) => false
+  | ("lenlt", c) => (x.elems.length : Int) < c
+  | ("evenlen", _) => x.elems.length % 2 = 0
+  | _ => false
+
+/-- `none` (the argument list) | `plus` (sum) | `lin` (fold acc*10+x) | `firstf` -/
+def applyFn2 (f : String) (args : List Val) : Val :=
+  match f with
+  | "plus" => .int (args.foldl (fun acc x => acc + vInt x) 0)
+  | "lin" => .int (args.foldl (fun acc x => acc * 10 + vInt x) 0)
+  | "firstf" => args.headD (.int 0)
+  | _ => Val.ofList args
+
+/-! ### stream expressions -/
+inductive SExpr where
+  | range (r : Range)
+  | perms (base : List Val)
+  | combs (base : List Val) (k : Int)
+  | subseqs (base : List Val)
+  | cpow (base : List Val) (k : Int)
+  | wrap (base : List Val)
+  | rep (v : Val)
+  | cyc (base : List Val)
+  | iter (f : String) (v : Val)
+  | map (f : String) (e : SExpr)
+  | filter (p : String) (e : SExpr)
+  | zip (f : String) (es : List SExpr)
+  | dropS (n : Nat) (e : SExpr)
+  | revS (e : SExpr)
+  | dropWhile (p : String) (e : SExpr)
+
+mutual
+partial def parseExpr : List String → Option (SExpr × List String)
+  | "til" :: a :: b :: r => do some (.range (Range.til (← a.toInt?) (← b.toInt?) 1), r)
+  | "tilby" :: a :: b :: c :: r => do some (.range (Range.til (← a.toInt?) (← b.toInt?) (← c.toInt?)), r)
+  | "to" :: a :: b :: r => do some (.range (Range.to (← a.toInt?) (← b.toInt?) 1), r)
+  | "toby" :: a :: b :: c :: r => do some (.range (Range.to (← a.toInt?) (← b.toInt?) (← c.toInt?)), r)
+  | "iota" :: a :: r => do some (.range (Range.iota (← a.toInt?)), r)
+  | "perms" :: l :: r => do some (.perms (← parseList l), r)
+  | "combs" :: l :: k :: r => do some (.combs (← parseList l) (← k.toInt?), r)
+  | "subseqs" :: l :: r => do some (.subseqs (← parseList l), r)
+  | "cpow" :: l :: k :: r => do some (.cpow (← parseList l) (← k.toInt?), r)
+  | "wrap" :: l :: r => do some (.wrap (← parseList l), r)
+  | "repeat" :: v :: r => do some (.rep (← parseVal v), r)
+  | "cycle" :: l :: r => do some (.cyc (← parseList l), r)
+  | "iterate" :: f :: v :: r => do some (.iter f (← parseVal v), r)
+  | "map" :: f :: r => do
+    let (e, r') ← parseExpr r
+    some (.map f e, r')
+  | "filter" :: p :: r => do
+    let (e, r') ← parseExpr r
+    some (.filter p e, r')
+  | "zip" :: f :: n :: r => do
+    let (es, r') ← parseExprs (← n.toNat?) r
+    some (.zip f es, r')
+  | "dropS" :: n :: r => do
+    let (e, r') ← parseExpr r
+    some (.dropS (← n.toNat?) e, r')
+  | "revS" :: r => do
+    let (e, r') ← parseExpr r
+    some (.revS e, r')
+  | "dropWhile" :: p :: r => do
+    let (e, r') ← parseExpr r
+    some (.dropWhile p e, r')
+  | _ => none
+partial def parseExprs : Nat → List String → Option (List SExpr × List String)
+  | 0, r => some ([], r)
+  | n + 1, r => do
+    let (e, r') ← parseExpr r
+    let (es, r'') ← parseExprs n r'
+    some (e :: es, r'')
+end
+
+/-! ### Impl side -/
+
+/-- re-type the elements of a stream without touching which methods are overridden -/
+def mapOut {σ β γ : Type} (f : β → γ) (o : Ops σ β) : Ops σ γ :=
+  let sl : SliceRes σ β → SliceRes σ γ := fun
+    | .list l => .list (l.map f)
+    | .strm s => .strm s
+  { next := mapNext o.next f
+    peek := fun s => (o.peek s).map f
+    bound := o.bound
+    len := o.len
+    force := fun s => (o.force s).map (List.map f)
+    index := fun s i => (o.index s i).map f
+    slice := fun s lo hi => (o.slice s lo hi).map sl
+    reversed := fun s => (o.reversed s).map sl }
+
+def toCount (k : Int) : R Nat :=
+  match toUsize k with
+  | some n => .ok n
+  | none => .throw
+
+/-- a `ZippedStream` over the given streams, yielding the argument lists -/
+def zipAll : List (Strm Val) → Option (Strm (List Val))
+  | [] => none
+  | [a] => some ⟨a.σ, zipOne a.ops, a.st⟩
+  | a :: rest =>
+    match zipAll rest with
+    | some b => some ⟨a.σ × b.σ, zipOps a.ops b.ops, (a.st, b.st)⟩
+    | none => none
+
+mutual
+def evalExpr : SExpr → R (Strm Val)
+  | .range r => .ok ⟨Range, mapOut Val.int Range.ops, r⟩
+  | .perms base => .ok ⟨Idx Val, mapOut Val.ofList Perm.ops, Perm.mk base⟩
+  | .combs base k => (toCount k).map fun k => ⟨Idx Val, mapOut Val.ofList Comb.ops, Comb.mk base k⟩
+  | .subseqs base => .ok ⟨Mask Val, mapOut Val.ofList Subseq.ops, Subseq.mk base⟩
+  | .cpow base k => (toCount k).map fun k => ⟨Idx Val, mapOut Val.ofList CPow.ops, CPow.mk base k⟩
+  | .wrap base => .ok ⟨Wrapped Val, Wrapped.ops, ⟨base, 0⟩⟩
+  | .rep v => .ok ⟨Val, Repeat.ops, v⟩
+  | .cyc base =>
+    -- post-fix for F15: `cycle` rejects an empty argument
+    if base.isEmpty then .throw else .ok ⟨Cycle Val, Cycle.ops, ⟨base, 0⟩⟩
+  | .iter f v => .ok ⟨Val, Iterate.ops (applyFn f), v⟩
+  | .map f e => (evalExpr e).map fun s => ⟨s.σ, mapOps s.ops (applyFn f), s.st⟩
+  | .filter p e => (evalExpr e).map fun s => ⟨s.σ, filterOps s.ops (applyPred p), s.st⟩
+  | .zip f es =>
+    (evalExprs es).bind fun ss =>
+      match zipAll ss with
+      | some z => .ok ⟨z.σ, mapOps z.ops (applyFn2 f), z.st⟩
+      | none => .throw
+  | .dropS n e =>
+    (evalExpr e).bind fun s =>
+      (s.slice (some n) none).bind fun r =>
+        match r with
+        | .inr t => .ok t
+        | .inl _ => .throw
+  | .revS e =>
+    (evalExpr e).bind fun s =>
+      s.reversed.bind fun r =>
+        match r with
+        | .inr t => .ok t
+        | .inl _ => .throw
+  | .dropWhile p e => (evalExpr e).bind fun s => s.dropWhile (applyPred p)
+def evalExprs : List SExpr → R (List (Strm Val))
+  | [] => .ok []
+  | e :: es => (evalExpr e).bind fun s => (evalExprs es).map fun ss => s :: ss
+end
+
+/-- what an observation returns -/
+inductive Res where
+  | val (v : Val)
+  | infLen
+  | seq (stream : Bool) (l : List Val)
+  | infStream
+  | streamErr
+
+def renderList (l : List Val) : String := "[" ++ joinWith "," (l.map Val.render) ++ "]"
+
+def Res.render : Res → String
+  | .val v => v.render
+  | .infLen => "f:7ff0000000000000"
+  | .seq false l => renderList l
+  | .seq true l => "stream" ++ renderList l
+  | .infStream => "stream-inf"
+  | .streamErr => "stream-err"
+
+/-- how the harness's `canon` shows a stream value: `len()`, then `force()` -/
+def showStrm (s : Strm Val) : R Res :=
+  s.len.bind fun n =>
+    match n with
+    | none => .ok .infStream
+    | some _ =>
+      match s.ops.force s.st with
+      | .ok l => .ok (.seq true l)
+      | .throw => .ok .streamErr
+      | .panic => .panic
+      | .diverge => .diverge
+
+def showSlice : Sum (List Val) (Strm Val) → R Res
+  | .inl l => .ok (.seq false l)
+  | .inr s => showStrm s
+
+inductive IdxArg where
+  | i (n : Int)
+  | omitted
+  | bad
+
+def parseIdx (s : String) : IdxArg :=
+  if s = "_" then .omitted
+  else match s.toInt? with
+    | some n => if -9223372036854775808 ≤ n ∧ n ≤ 9223372036854775807 then .i n else .bad
+    | none => .bad
+
+/-- `obj_to_isize_slice_index` -/
+def sliceArg : IdxArg → R (Option Int)
+  | .i n => .ok (some n)
+  | .omitted => .ok none
+  | .bad => .throw
+
+def obsImpl (obs : List String) (s : Strm Val) : R Res :=
+  match obs with
+  | ["len"] => s.len.map fun n => match n with
+    | some n => .val (.int n)
+    | none => .infLen
+  | ["list"] => s.toList.map (.seq false)
+  | ["pairs"] => s.toList.map fun l => .seq false (l.zipIdx.map fun (x, i) => Val.ofList [.int i, x])
+  | ["rev"] => s.reversed.bind showSlice
+  | ["last"] => (s.index (-1)).map .val
+  | ["first"] => (s.index 0).map .val
+  | ["truthy"] => s.truthy.map fun b => .val (b2v b)
+  | ["idx", i] =>
+    match parseIdx i with
+    | .i n => (s.index n).map .val
+    | _ => .throw
+  | ["slice", lo, hi] =>
+    (sliceArg (parseIdx lo)).bind fun lo =>
+    (sliceArg (parseIdx hi)).bind fun hi =>
+    (s.slice lo hi).bind showSlice
+  | ["in", v] =>
+    match parseVal v with
+    | some v => (s.mem v).map fun b => .val (b2v b)
+    | none => .throw
+  | ["unpack", k] => (s.unpack k.toNat!).map (.seq false)
+  | ["unpackSplat", a, b] =>
+    (s.unpackSplat a.toNat! b.toNat!).map fun (x, m, y) => .seq false (x ++ [Val.ofList m] ++ y)
+  | ["takeWhile", p] => (s.takeWhile (applyPred p)).map (.seq false)
+  | _ => .throw
+
+/-! ### Spec side -/
+
+def fuelList (n : Nat) (g : Nat → Val) : List Val := (List.range n).map g
+
+mutual
+def specExpr : SExpr → R (SS Val)
+  | .range r =>
+    match r.stop with
+    | none => .ok (.inf fun i => .int (r.start + i * r.step))
+    | some e =>
+      if r.step = 0 ∧ r.start < e then .ok (.inf fun _ => .int r.start)
+      -- a progression too long to write down: outside the quantifier, correspondence only
+      else if rangeCount r.start e r.step > 10000000 then .diverge
+      else .ok (.fin ((rangeList r.start e r.step).map Val.int))
+  | .perms base => .ok (.fin ((lexPerms base).map Val.ofList))
+  | .combs base k => if k < 0 ∨ k > 18446744073709551615 then .throw else .ok (.fin ((combs k.toNat base).map Val.ofList))
+  | .subseqs base => .ok (.fin ((subseqs base).map Val.ofList))
+  | .cpow base k => if k < 0 ∨ k > 18446744073709551615 then .throw else .ok (.fin ((tuples base k.toNat).map Val.ofList))
+  | .wrap base => .ok (.fin base)
+  | .rep v => .ok (.inf fun _ => v)
+  | .cyc base => if base.isEmpty then .throw else .ok (.inf fun i => base.getD (i % base.length) (.int 0))
+  | .iter f v => .ok (.inf fun i => iterN (applyFn f) i v)
+  | .map f e => (specExpr e).map (SS.map (applyFn f))
+  | .filter p e => (specExpr e).map (SS.filter (applyPred p))
+  | .zip f es =>
+    (specExprs es).bind fun ss =>
+      match ss.reverse with
+      | [] => .throw
+      | last :: restRev =>
+        let z := restRev.foldl (fun acc s => SS.zipCons s acc) (SS.map (fun x => [x]) last)
+        .ok (SS.map (applyFn2 f) z)
+  | .dropS n e => (specExpr e).map (SS.drop n)
+  | .revS e =>
+    -- the property does not say what the reversal of an infinite stream is; a finite stream's
+    -- `reverse` is a list, not a stream
+    (specExpr e).bind fun _ => .diverge
+  | .dropWhile p e =>
+    (specExpr e).bind fun s =>
+      match s.dropWhile (applyPred p) with
+      | some t => .ok t
+      | none => .diverge
+def specExprs : List SExpr → R (List (SS Val))
+  | [] => .ok []
+  | e :: es => (specExpr e).bind fun s => (specExprs es).map fun ss => s :: ss
+end
+
+def optIdx : IdxArg → Option Int
+  | .i n => some n
+  | _ => none
+
+/-- the observation on the mathematical stream; `streamKind` = whether the real result is
+presented as a stream (the property speaks about contents only) -/
+def obsSpec (obs : List String) (streamKind : Bool) : SS Val → R Res
+  | .fin l =>
+    match obs with
+    | ["len"] => .ok (.val (.int l.length))
+    | ["list"] => .ok (.seq false l)
+    | ["pairs"] => .ok (.seq false (l.zipIdx.map fun (x, i) => Val.ofList [.int i, x]))
+    | ["rev"] => .ok (.seq streamKind l.reverse)
+    | ["last"] => match l.getLast? with
+      | some v => .ok (.val v)
+      | none => .throw
+    | ["first"] => match l.head? with
+      | some v => .ok (.val v)
+      | none => .throw
+    | ["truthy"] => .ok (.val (b2v (!l.isEmpty)))
+    | ["idx", i] =>
+      match parseIdx i with
+      | .i n => match pyIndex l n with
+        | some v => .ok (.val v)
+        | none => .throw
+      | _ => .throw
+    | ["slice", lo, hi] =>
+      match parseIdx lo, parseIdx hi with
+      | .bad, _ => .throw
+      | _, .bad => .throw
+      | lo, hi => .ok (.seq streamKind (pySliceSpec l (optIdx lo) (optIdx hi)))
+    | ["in", v] =>
+      match parseVal v with
+      | some v => .ok (.val (b2v (l.contains v)))
+      | none => .throw
+    | ["unpack", k] => if l.length = k.toNat! then .ok (.seq false l) else .throw
+    | ["unpackSplat", a, b] =>
+      let a := a.toNat!
+      let b := b.toNat!
+      if a + b ≤ l.length then
+        .ok (.seq false (l.take a ++ [Val.ofList ((l.drop a).take (l.length - a - b))] ++ l.drop (l.length - b)))
+      else .throw
+    | ["takeWhile", p] => .ok (.seq false (l.takeWhile (applyPred p)))
+    | _ => .throw
+  | .inf g =>
+    match obs with
+    | ["len"] => .ok .infLen
+    | ["truthy"] => .ok (.val (.int 1))
+    | ["first"] => .ok (.val (g 0))
+    | ["idx", i] =>
+      match parseIdx i with
+      | .i n => if 0 ≤ n then .ok (.val (g n.toNat)) else .diverge
+      | _ => .throw
+    | ["slice", lo, hi] =>
+      match parseIdx lo, parseIdx hi with
+      | .bad, _ => .throw
+      | _, .bad => .throw
+      | lo, hi =>
+        let lo := (optIdx lo).getD 0
+        match optIdx hi with
+        | none => if 0 ≤ lo then .ok .infStream else .diverge
+        | some hi =>
+          if 0 ≤ lo ∧ 0 ≤ hi then
+            .ok (.seq streamKind ((List.range (hi.toNat - lo.toNat)).map fun i => g (i + lo.toNat)))
+          else .diverge
+    | ["in", v] =>
+      match parseVal v with
+      | some v => if (List.range 100000).any (fun i => g i == v) then .ok (.val (.int 1)) else .diverge
+      | none => .throw
+    | ["unpack", _] => .throw
+    | ["unpackSplat", _, _] => .throw
+    | ["takeWhile", p] =>
+      match (SS.inf g).takeWhile (applyPred p) with
+      | some l => .ok (.seq false l)
+      | none => .diverge
+    | _ => .diverge
+
+def splitAt (xs : List String) : List String × List String :=
+  (xs.takeWhile (· ≠ "@"), (xs.dropWhile (· ≠ "@")).drop 1)
+
+def isStreamRes : R Res → Bool
+  | .ok (.seq true _) => true
+  | _ => false
+
+def handle (args : List String) : String :=
+  let (obs, ex) := splitAt args
+  match parseExpr ex with
+  | some (e, []) =>
+    let impl := (evalExpr e).bind (obsImpl obs)
+    let specS := specExpr e
+    let spec := specS.bind (obsSpec obs (isStreamRes impl))
+    -- where the property is silent (`diverge` on the spec side: negative positions and reversal
+    -- of infinite streams) the spec column repeats the impl column, marked in the diagnostics
+    let kind := match specS with
+      | .ok (.fin _) => "finite"
+      | .ok (.inf _) => "infinite"
+      | _ => "none"
+    match spec with
+    | .diverge => impl.render Res.render ++ "\t" ++ impl.render Res.render ++ "\t" ++ kind ++ " unspecified"
+    | _ => impl.render Res.render ++ "\t" ++ spec.render Res.render ++ "\t" ++ kind
+  | _ => "bad-op"
+
 end Noulith.DriverC11
